@@ -33,8 +33,23 @@ def _world(ctx, mods, shape):
     reorder = (lambda s_, c: ctx.choose(len(c), 'ack/data order')) if shape.get('spec_order') else None
     st = Std(ctx, maxdata=4096, monitor=mon, packetize=packetize, reorder=reorder)
     st.dev.strict_causality = not shape.get('spec_order')
-    w = World(ctx, mods, st.dev, impl=shape['impl'])
+    F = shape.get('frag', 0)
+    fstate = {'on': False, 'left': F}
+
+    def frag(n, avail, idx):
+        m = min(n, avail)
+        if not fstate['on'] or fstate['left'] <= 0 or m <= 1:
+            return m
+        c = ctx.choose(m, 'read size')       # 0 = full read, k = short read of k bytes
+        if c:
+            fstate['left'] -= 1
+            return c
+        return m
+
+    w = World(ctx, mods, st.dev, impl=shape['impl'], frag=frag if F else None, default_timeout=1)
+    st.fstate = fstate
     o = w.try_call('connect')
+    fstate['on'] = True
     return mon, st, w
 
 
@@ -84,7 +99,29 @@ def h_stat(ctx, mods, shape):
 
 from .c06 import h_async, h_threads
 
-HARNESSES = {'list': h_list, 'stat': h_stat, 'async': h_async, 'threads': h_threads}
+def h_after_abort(ctx, mods, shape):
+    """a list/stat that was cut short by the device (timeout in the middle of a record) must not influence the next one"""
+    mon, st, w = _world(ctx, mods, shape)
+    st.truncate_reply = (shape['cut'], 'silence')
+    first = ops.List(names=[2, 1]) if shape['first'] == 'list' else ops.Stat()
+    first.setup(ctx, st, w, 0)
+    o1 = first.run(w)
+    ctx.observe('first', o1.kind())
+    ctx.check(not o1.ok, 'a reply that stops in the middle of a record makes the operation fail', detail=repr(o1))
+    if shape.get('reconnect'):
+        w.try_call('close')
+        w.try_call('connect')
+    second = ops.List(names=[1, 2]) if shape['second'] == 'list' else ops.Stat()
+    exp = second.setup(ctx, st, w, 1)
+    o2 = second.run(w)
+    ctx.observe('second', o2.kind())
+    if not o2.ok:
+        ctx.fail('the %s after an aborted %s raised %s' % (shape['second'], shape['first'], o2.kind()), detail=repr(o2.exc))
+        return
+    second.check(ctx, w, st, o2, exp, 'after an aborted %s: ' % shape['first'])
+
+
+HARNESSES = {'after_abort': h_after_abort, 'list': h_list, 'stat': h_stat, 'async': h_async, 'threads': h_threads}
 
 
 def shapes(tier, seed):
@@ -107,6 +144,19 @@ def shapes(tier, seed):
             out.append({'h': 'list', 'impl': impl, 'names': [], 'many': 150 if q else 300, 'wrte_size': ws})
         for nc in ((0, 1, 2) if q else (0, 1, 2, 3)):
             out.append({'h': 'stat', 'impl': impl, 'cuts': nc})
+        # fragmented transport reads (one short read anywhere, incl. inside the 24-byte packet headers)
+        out.append({'h': 'stat', 'impl': impl, 'cuts': 1, 'frag': 1, 'max_paths': 200000})
+        out.append({'h': 'list', 'impl': impl, 'names': [2, 1], 'cuts': 0, 'frag': 1, 'max_paths': 200000})
+        for i in range(3 if q else 6):
+            out.append({'h': 'list', 'impl': impl, 'names': [1], 'cuts': 1, 'frag': 1, 'max_paths': 200000, 'part': [i, 3 if q else 6]})
+        if not q:
+            for i in range(8):
+                out.append({'h': 'list', 'impl': impl, 'names': [2, 1], 'cuts': 1, 'frag': 1, 'max_paths': 400000, 'part': [i, 8]})
+        out.append({'h': 'list', 'impl': impl, 'names': [1], 'cuts': 0, 'frag': 2, 'max_paths': 200000})
+        # an operation cut short by the device, then another one on the same object
+        for first, second, cut in (('list', 'list', 27), ('list', 'list', 5), ('stat', 'stat', 9), ('list', 'stat', 30), ('stat', 'list', 3)):
+            for rc in (False, True):
+                out.append({'h': 'after_abort', 'impl': impl, 'first': first, 'second': second, 'cut': cut, 'reconnect': rc})
         # protocol.txt ordering only: reply packets may even precede the OKAY for the request
         out.append({'h': 'stat', 'impl': impl, 'cuts': 2, 'spec_order': True, 'max_paths': 200000})
         out.append({'h': 'list', 'impl': impl, 'names': [2, 1], 'cuts': 1, 'spec_order': True, 'max_paths': 200000})
